@@ -3,11 +3,12 @@ package props
 import (
 	"math"
 	"strings"
+	"time"
 
 	"github.com/parquet-go/parquet-go"
 )
 
-// Row types whose fields are interface-typed: the schema is given explicitly
+// (C03-only row types.) Row types whose fields are interface-typed: the schema is given explicitly
 // and the dynamic value decides what is written (column_buffer_reflect.go on
 // the typed paths, row.go on the reflection path). Used by C03: every
 // ingestion path must store the same streams.
@@ -149,7 +150,92 @@ func tAny2Rows() []any {
 	return rows
 }
 
+// TTimeSub: times and durations that are NOT multiples of the unit of their
+// column, before and after the epoch (what is stored is the value at the
+// column's precision; every path must store the same one). C03 only: the
+// rows do not read back equal, by design of the column types.
+type TTimeSub struct {
+	ID  int64
+	Tm  time.Time      `parquet:",timestamp(millisecond)"`
+	Tu  time.Time      `parquet:",timestamp(microsecond)"`
+	Td  time.Time      `parquet:",timestamp"`
+	Tn  time.Time      `parquet:",timestamp(nanosecond)"`
+	To  *time.Time     `parquet:",timestamp(millisecond)"`
+	Dm  time.Duration  `parquet:",time(millisecond)"`
+	Du  time.Duration  `parquet:",time(microsecond)"`
+	Dp  *time.Duration `parquet:",time(millisecond)"`
+	Day time.Time      `parquet:",date"`
+	L   []tTimeIn
+}
+
+func tTimeSubRows() []any {
+	times := []time.Time{
+		time.Unix(0, 0).UTC(), time.Unix(0, 1).UTC(), time.Unix(0, -1).UTC(), time.Unix(0, 999_999).UTC(), time.Unix(0, -999_999).UTC(),
+		time.Unix(0, 1_000_001).UTC(), time.Unix(0, -1_000_001).UTC(), time.Unix(-14182939, -876_543_211).UTC(), time.Unix(1700000000, 123_456_789).UTC(),
+		time.Unix(-1, 500).UTC(), time.Unix(-86400, 1).UTC(), time.Unix(86399, 999_999_999).UTC(), time.Unix(-86401, 999_999_999).UTC(),
+	}
+	durs := []time.Duration{0, 1, 999_999, 1_000_001, 1500*time.Millisecond + 700, 24*time.Hour - 1, time.Microsecond - 1, time.Microsecond + 1}
+	var rows []any
+	for i, t := range times {
+		t := t
+		d := durs[i%len(durs)]
+		r := TTimeSub{ID: int64(i), Tm: t, Tu: t, Td: t, Tn: t, Dm: d, Du: d, Day: t, L: []tTimeIn{{T: t, N: 1}, {N: 2}}}
+		if i%2 == 0 {
+			r.To, r.Dp = &t, &d
+		}
+		rows = append(rows, r)
+	}
+	return rows
+}
+
+// TOneHot: optional fixed-size arrays whose only non-zero byte sits at every
+// position in turn (an optional array is null iff ALL its bytes are zero; the
+// kernels that decide it look at the bytes in words and lanes).
+type TOneHot struct {
+	ID  int64
+	U16 [16]byte   `parquet:",uuid,optional"`
+	A16 [16]byte   `parquet:",optional"`
+	A8  [8]byte    `parquet:",optional"`
+	A4  [4]byte    `parquet:",optional"`
+	A12 [12]byte   `parquet:",optional"`
+	A24 [24]byte   `parquet:",optional"`
+	L16 [][16]byte `parquet:",list" parquet-element:",optional"`
+}
+
+func tOneHotRows() []any {
+	rows := []any{TOneHot{}}
+	for i := 0; i < 24; i++ {
+		for _, b := range []byte{0x01, 0x80} {
+			r := TOneHot{ID: int64(i)}
+			r.A24[i] = b
+			if i < 16 {
+				r.U16[i], r.A16[i] = b, b
+				var e, z [16]byte
+				e[i] = b
+				r.L16 = [][16]byte{e, z, e}
+			}
+			if i < 12 {
+				r.A12[i] = b
+			}
+			if i < 8 {
+				r.A8[i] = b
+			}
+			if i < 4 {
+				r.A4[i] = b
+			}
+			rows = append(rows, r)
+		}
+	}
+	return rows
+}
+
 var anyRowTypes = []*RT{
+	mkRTWith[TOneHot]("OneHot", nil, tOneHotRows()),
+	func() *RT {
+		rt := mkRTWith[TTimeSub]("TimeSub", nil, tTimeSubRows())
+		rt.NoReassembly = true
+		return rt
+	}(),
 	mkRTWith[TAny]("Any", tAnySchema, tAnyRows()),
 	mkRTWith[TAny2]("Any2", tAny2Schema, tAny2Rows()),
 }
